@@ -42,7 +42,7 @@ ENVIRONMENT FACTS (important)
   Verify with `python -c "import mchap; print(mchap.__file__)"` that your tree is the one imported.
 - NUMBA CACHE TRAP: all kernels are @njit(cache=True) and numba invalidates a cached function only when ITS OWN file changes, so callers compiled earlier keep running OLD callee code. After every source edit delete the cache directory (rm -rf {wt}/.nbcache) or use a fresh NUMBA_CACHE_DIR, otherwise you will test stale code. Always set NUMBA_CACHE_DIR to a directory inside your worktree; never let it default.
 - A full-suite run takes ~10 min on one core (use -n 4); importing mchap.application.cli costs ~8 s. No network, no samtools/bcftools binaries (use pysam if you need BAM/VCF files). The machine is shared with other jobs: be patient with timeouts.
-- To compare against the unchanged code use `git -C {wt} stash` / `git -C {wt} stash pop`, or `git -C {wt} diff > /tmp/x.diff; git -C {wt} checkout -- .`.
+- To compare against the unchanged code NEVER use `git stash` (the stash is shared by every worktree of the repository and other agents work in sibling worktrees); use `git -C {wt} diff -- mchap > {wt}/my.diff; git -C {wt} checkout -- mchap; <run>; git -C {wt} apply {wt}/my.diff` (and delete the numba cache after each switch).
 
 DELIVERABLES (write them into {wt}/SEEDED/):
 - patch.diff  : `git -C {wt} diff -- mchap` output of your final change (source files only; apply-able with `git apply` / `patch -p1` on the unchanged tree)
